@@ -339,6 +339,38 @@ def sameoffer_part(chk, owner, n, seed):
             chk.note("finding owned by C02 (not reported here): identical polls, %s" % kind)
 
 
+def rollstorm_part(chk, owner, n, seed, iterations=150):
+    """Herds during whose waves the measurement period ends `iterations` times in a row: every printed
+    period must be consistent in itself (TMid of Broker_Trace), whatever the interleaving with the polls.
+    They run in processes of their own; nothing else of them is judged."""
+    herds = generate_herds(n, seed + 7, 400001)
+    for h in herds:
+        h["rollstorm"], h["rollover"], h["fresh"], h["barrier"] = iterations, False, True, False
+        h["bridges"] = ["default", "b2"]
+    by_sc, _ = run_rig(chk, herds, shards=min(8, max(1, n // 6)), tag="storm", fresh_each=True)
+    reduced, mids = {}, 0
+    for sid, evs in by_sc.items():
+        mid = [e for e in evs if e["ev"] == "metrics-mid"]
+        if not mid:
+            continue
+        mids += len(mid)
+        reduced[sid] = [dict(e, fresh=True) for e in evs if e["ev"] == "reset"][:1] + mid
+    chk.cov["evaluations"] += len(herds)
+    chk.cov["periods_ended_under_load"] = chk.cov.get("periods_ended_under_load", 0) + mids
+    if len(reduced) < max(1, n // 2) or mids < 2 * n:
+        raise vlib.Inconclusive("period storms recorded only %d periods in %d herds" % (mids, len(reduced)))
+    findings, accepted = validate(chk, reduced)
+    chk.cov["traces_validated_against_impl"] += accepted
+    by_id = {h["id"]: h for h in herds}
+    for sid, kind, ev in findings:
+        if owner == "C19":
+            chk.violation("C19/period-figures-inconsistent", "a measurement period that ended while polls were being served printed figures that contradict "
+                          "each other (per-country counts, per-type sets, NAT sets and total are updated in one critical section): %s" % json.dumps(ev)[:1500],
+                          {"scenario": by_id[sid], "events": [e for e in by_sc[sid] if e["ev"] in ("reset", "metrics-mid")][:60]})
+        else:
+            chk.note("finding owned by C19 (not reported here): period figures, %s" % kind)
+
+
 ORDER = []     # scenario ids in execution order (shard after shard) of the last run_rig call
 CROSS = []     # shard inputs whose process died because a channel outlived its scenario (fake-clock bubble)
 STUCK = []     # (scenario id, goroutine dump, shard input) of rig processes stopped by the watchdog
@@ -693,6 +725,8 @@ def pipeline(chk, owner, tier, seed, counts=None, herds=None, do_mc=True, mc_onl
             chk.note("finding owned by %s (not reported here): %s in scenario %s" % (own, kind, sid))
     if owner == "C02":
         sameoffer_part(chk, owner, 16 if q_ else 120, seed)
+    if owner == "C19":
+        rollstorm_part(chk, owner, 48 if q_ else 400, seed)
     chk.cov["rule"] = ("behaviours: tlc -simulate of spec/Broker generation configs (gated replay) plus seeded same-instant herds; "
                        "non-trivial = contains a proxy/client timer expiry or a herd wave or more than one answer; distinct by step list")
     chk.assumptions += ["fake clock of testing/synctest (go1.26.8, asynctimerchan=0): time advances only when every goroutine is blocked",
@@ -705,6 +739,19 @@ def replay(chk, owner, path):
         rp = json.load(fh)["replay"]
     sc = dict(rp["scenario"])
     sc["fresh"] = True
+    if sc.get("rollstorm"):
+        # the interleaving of the period ends with the polls is the machine's: the scenario is repeated
+        reps = [dict(json.loads(json.dumps(sc)), id=sc["id"] + n) for n in range(24)]
+        by_sc, _ = run_rig(chk, reps, shards=4, tag="storm-replay", fresh_each=True)
+        reduced = {sid: [dict(e, fresh=True) for e in evs if e["ev"] == "reset"][:1] + [e for e in evs if e["ev"] == "metrics-mid"]
+                   for sid, evs in by_sc.items() if any(e["ev"] == "metrics-mid" for e in evs)}
+        chk.cov["evaluations"] += len(reps)
+        findings, accepted = validate(chk, reduced)
+        chk.cov["traces_validated_against_impl"] += accepted
+        for sid, kind, ev in findings[:1]:
+            chk.violation("C19/period-figures-inconsistent", "a measurement period that ended while polls were being served printed figures that contradict each other: %s" % json.dumps(ev)[:1500],
+                          {"scenario": sc, "events": [e for e in by_sc[sid] if e["ev"] in ("reset", "metrics-mid")][:60]})
+        return
     by_sc, _ = run_rig(chk, [sc], shards=1)
     evs = by_sc.get(sc["id"], [])
     end = [e for e in evs if e["ev"] == "end"]
